@@ -32,6 +32,7 @@ func runC14(p *load.Program, r *oblig.Report) {
 	c14Leader(p, r)
 	c14Rack(p, r)
 	c14OwnStorage(p, r)
+	c14RawRackKeys(p, r)
 }
 
 func clean(s string) string { return strings.ReplaceAll(s, "@", "") }
